@@ -21,7 +21,8 @@ def split_words(ident):
     for part in ident.split("_"):
         if not part:
             continue
-        words += re.findall(r"[A-Z]?[a-z0-9]+|[A-Z]+(?![a-z])", part)
+        # convert_case's default boundaries also split between letters and digits (LowerDigit, DigitLower, UpperDigit, DigitUpper)
+        words += re.findall(r"[A-Z]?[a-z]+|[A-Z]+(?![a-z])|[0-9]+", part)
     return words
 
 
@@ -355,13 +356,16 @@ def base_catalogue():
     # the tag literal is used as written: neither the container's nor a variant's rename_all touches it
     c.append(T("E19TagSnake", tag="shape_kind", rename_all="camelCase", deny="default", variants=[
         V("RoundOne", fields=[F("radius_len", "u8")]), V("FlatOne")]))
+    # digits inside a word are word boundaries of their own for the case conversion (`abc1def` -> `abc1Def`)
+    c.append(T("S27DigitsInside", rename_all="camelCase", deny="default", fields=[
+        F("abc1def", "u8"), F("v2beta_x", "bool"), F("plain_one", "u8"), F("x9", "u8", rename="x_nine")]))
     c.append(T("E20TagUpper", tag="Kind", rename_all="lowercase", variants=[
         V("Dog", fields=[F("Legs", "u8")]), V("Fish", rename_all="camelCase", fields=[F("fin_count", "u8")])]))
     return c
 
 
 # ---------------------------------------------------------------- random catalogue
-FIELD_IDENTS = ["a", "b", "c", "id", "name", "my_field", "other_field", "long_field_name", "x1", "field_2", "value", "kind", "is_ok", "url"]
+FIELD_IDENTS = ["a", "b", "c", "id", "name", "my_field", "other_field", "long_field_name", "x1", "field_2", "value", "kind", "is_ok", "url", "abc1def", "utf8_text"]
 VARIANT_IDENTS = ["Alpha", "Beta", "GammaDelta", "Http", "NotFound", "XmlDoc", "A", "Bee", "LongVariantName"]
 SCALARS = ["u8", "u16", "i32", "bool", "String", "char", "f64", "u64", "()"]
 
